@@ -216,3 +216,177 @@ impl Group for Tiling {
         line.matches(',').count() >= 2
     }
 }
+
+/// C09 on the wire: the glue between the range parser and the response — `handle_cache`'s guard on cache hits,
+/// `SendKind::send`, the 416 answer — on a real server, cold and after the resource went into the response cache.
+pub struct Wire;
+
+fn statement_expect(body: &[u8], hv: &[u8]) -> Option<(u16, Vec<u8>, Option<String>)> {
+    let s = String::from_utf8_lossy(hv).into_owned();
+    let digits = |x: &str| !x.is_empty() && x.bytes().all(|c| c.is_ascii_digit());
+    let rest = s.strip_prefix("bytes=")?;
+    let parts: Vec<&str> = rest.splitn(2, '-').collect();
+    if parts.len() == 2 && digits(parts[0]) && digits(parts[1]) {
+        return match (parts[0].parse::<u64>(), parts[1].parse::<u64>()) {
+            (Ok(a), Ok(b)) => {
+                let len = body.len() as u64;
+                if a > b || a >= len {
+                    Some((416, vec![], None))
+                } else {
+                    let e = b.min(len - 1);
+                    Some((206, body[a as usize..=e as usize].to_vec(), Some(format!("bytes {a}-{e}/{len}"))))
+                }
+            }
+            _ => Some((200, body.to_vec(), None)),
+        };
+    }
+    if rest.contains(',') || rest.starts_with('-') && digits(&rest[1..]) || rest.ends_with('-') && digits(&rest[..rest.len() - 1]) {
+        return Some((200, body.to_vec(), None));
+    }
+    None
+}
+
+impl Group for Wire {
+    fn name(&self) -> &'static str {
+        "c09.wire"
+    }
+    fn rule(&self) -> &'static str {
+        "a real loopback server with a cached and an uncached handler (bodies 0-40 bytes): 0-2 plain GETs (so that the ranged request is answered from the response cache or not), then GET or HEAD with a Range header from the c09.reply generator (valid, clamped, inverted, beyond the end, boundary values to 2^64, several ranges, suffix/open, other units), all on one connection; GET replies compared with the range model; oracle from the statement for GET and HEAD (status, body slice, content-range, content-length; HEAD without a body); non-trivial = a Range header on a warmed cached resource"
+    }
+    fn parallel(&self) -> bool {
+        false
+    }
+    fn generate(&self, ctx: &Ctx, rng: &mut Rng) -> Vec<String> {
+        let n = if ctx.mode == Mode::Quick { 220 } else { 6000 };
+        let mut v = Vec::new();
+        let fixed = ["bytes=5-3", "bytes=1-0", "bytes=0-0", "bytes=2-5", "bytes=0-100", "bytes=30-40", "bytes=18446744073709551615-0", "bytes=0-18446744073709551615", "bytes=3-", "bytes=-3", "bytes=0-1,3-4", "items=0-1", "bytes=18446744073709551616-18446744073709551617"];
+        for h in fixed {
+            for warm in [0, 1, 2] {
+                for m in ["G", "H"] {
+                    v.push(format!("c09.wire c 12 {warm} {m} {}", hex(h.as_bytes())));
+                }
+            }
+            v.push(format!("c09.wire u 12 1 G {}", hex(h.as_bytes())));
+        }
+        for _ in 0..n {
+            let len = *rng.pick(&[0usize, 1, 2, 5, 12, 40]);
+            let a = rng.below(len + 3);
+            let b = rng.below(len + 3);
+            let h = match rng.below(10) {
+                0 => format!("bytes={a}-"),
+                1 => format!("bytes=-{b}"),
+                2 => format!("bytes={a}-{b},{b}-{a}"),
+                3 => format!("bytes={}-{b}", *rng.pick(&["18446744073709551615", "18446744073709551616", "4294967296", "9223372036854775808"])),
+                4 => format!("bytes={a}-{}", *rng.pick(&["18446744073709551615", "18446744073709551614", "18446744073709551616", "4294967295"])),
+                _ => format!("bytes={a}-{b}"),
+            };
+            v.push(format!("c09.wire {} {len} {} {} {}", if rng.chance(4, 5) { "c" } else { "u" }, rng.below(3), if rng.chance(3, 4) { "G" } else { "H" }, hex(h.as_bytes())));
+        }
+        v
+    }
+    fn driver_line(&self, line: &str) -> String {
+        let p: Vec<&str> = line.split(' ').collect();
+        let len: usize = p[2].parse().unwrap();
+        format!("c09.reply {} {}", hex(&body_of(len)), p[5])
+    }
+    fn compare_with_model(&self, line: &str) -> bool {
+        line.split(' ').nth(4) == Some("G")
+    }
+    fn canon(&self, out: &str) -> String {
+        // accept-ranges is not part of the statement; the wire reply is compared on status, body and content-range
+        out.split(" ar=").next().unwrap_or(out).to_owned()
+    }
+    fn run_impl(&self, _ctx: &Ctx, line: &str) -> String {
+        use crate::server::*;
+        use kvarn::prelude::*;
+        let p: Vec<&str> = line.split(' ').collect();
+        let len: usize = p[2].parse().unwrap();
+        let warm: usize = p[3].parse().unwrap();
+        let head = p[4] == "H";
+        let hv = unhex(p[5]).unwrap();
+        let body = body_of(len);
+        let mut ext = Extensions::empty();
+        let b1 = Bytes::from(body.clone());
+        ext.add_prepare_single("/c", prepare!(_r, _h, _p, _a, move |b1: Bytes| {
+            let mut r = Response::new(b1.clone());
+            r.headers_mut().insert("content-type", HeaderValue::from_static("text/plain"));
+            FatResponse::cache(r)
+        }));
+        let b2 = Bytes::from(body.clone());
+        ext.add_prepare_single("/u", prepare!(_r, _h, _p, _a, move |b2: Bytes| {
+            let mut r = Response::new(b2.clone());
+            r.headers_mut().insert("content-type", HeaderValue::from_static("text/plain"));
+            FatResponse::no_cache(r)
+        }));
+        let mut host = Host::unsecure("localhost", "/nonexistent", ext, host::Options::default());
+        host.limiter.disable();
+        let Some(srv) = TestServer::try_start(HostCollection::builder().insert(host).build()) else { return "inconclusive: server did not start".into() };
+        let Some(stream) = connect_retry(srv.port) else { srv.stop(); return "inconclusive: connect".into() };
+        let mut cl = StrictClient::new(stream);
+        let path = format!("/{}", p[1]);
+        let mut out = String::new();
+        for _ in 0..warm {
+            if cl.send(format!("GET {path} HTTP/1.1\r\nhost: localhost\r\n\r\n").as_bytes()).is_err() { srv.stop(); return "inconclusive: send".into(); }
+            match cl.read_response(false) {
+                Ok(r) if r.status == 200 && r.body == body => {}
+                Ok(r) => { out = format!("warm-up GET answered {} with {} body bytes", r.status, r.body.len()); break; }
+                Err(e) => { out = format!("warm-up GET: {e:?}"); break; }
+            }
+        }
+        if out.is_empty() {
+            let mut req = format!("{} {path} HTTP/1.1\r\nhost: localhost\r\nrange: ", if head { "HEAD" } else { "GET" }).into_bytes();
+            req.extend_from_slice(&hv);
+            req.extend_from_slice(b"\r\n\r\n");
+            if cl.send(&req).is_err() { srv.stop(); return "inconclusive: send".into(); }
+            out = match cl.read_response(head) {
+                Err(e) => format!("no-response {e:?}"),
+                Ok(r) => {
+                    let cr = r.header("content-range").map(|v| hex(v)).unwrap_or("none".into());
+                    let cl_h = r.header("content-length").map(|v| String::from_utf8_lossy(v).into_owned()).unwrap_or("none".into());
+                    if head {
+                        format!("H {} cr={cr} cl={cl_h} bodybytes={}", r.status, r.body.len())
+                    } else if r.status == 416 {
+                        "416".into()
+                    } else {
+                        format!("{} body={} cr={cr} ar={}", r.status, hex(&r.body), b01(r.header("accept-ranges").is_some()))
+                    }
+                }
+            };
+        }
+        srv.stop();
+        out
+    }
+    fn oracle(&self, _ctx: &Ctx, line: &str, out: &str) -> Option<(String, String)> {
+        let p: Vec<&str> = line.split(' ').collect();
+        let len: usize = p[2].parse().unwrap();
+        let hv = unhex(p[5]).unwrap();
+        let body = body_of(len);
+        let key = format!("wire:{}:{}:len={len}:{}", p[1], p[4], String::from_utf8_lossy(&hv));
+        if out.starts_with("warm-up") || out.starts_with("no-response") || out == "panic" {
+            return Some((key, out.to_owned()));
+        }
+        let (status, slice, cr) = statement_expect(&body, &hv)?;
+        let crh = cr.as_ref().map(|c| hex(c.as_bytes())).unwrap_or("none".into());
+        let expect = if p[4] == "H" {
+            // a 416 carries an error page: its length is not the statement's business
+            if status == 416 { if out.starts_with("H 416 ") && out.ends_with("bodybytes=0") { return None; } "H 416 … bodybytes=0".to_owned() } else { format!("H {status} cr={crh} cl={} bodybytes=0", slice.len()) }
+        } else if status == 416 {
+            "416".to_owned()
+        } else {
+            format!("{status} body={} cr={crh}", hex(&slice))
+        };
+        let got = out.split(" ar=").next().unwrap_or(out);
+        if got != expect {
+            return Some((key, format!("expected `{expect}`, got `{got}` (after {} plain GETs)", p[3])));
+        }
+        None
+    }
+    fn nontrivial(&self, line: &str, _o: &str) -> bool {
+        let p: Vec<&str> = line.split(' ').collect();
+        p[1] == "c" && p[3] != "0"
+    }
+    fn classify(&self, line: &str, o: &str) -> String {
+        let p: Vec<&str> = line.split(' ').collect();
+        format!("{}{} {}", p[1], if p[3] == "0" { "-cold" } else { "-warm" }, o.split(' ').take(if o.starts_with('H') { 2 } else { 1 }).collect::<Vec<_>>().join(" "))
+    }
+}
